@@ -73,7 +73,24 @@ def holds(dialect, column, value):
     return False
 
 
+SPELLINGS = {"lower": str.lower, "UPPER": str.upper, "Capitalised": str.capitalize}
+
+
 def _job(vec):
+    """SQL keywords do not depend on case: the behaviour is replayed with the field names in three spellings."""
+    problems, signature = [], None
+    for label, spell_name in sorted(SPELLINGS.items()):
+        spelled = dict(vec)
+        spelled["fields"] = [dict(field, name=spell_name(field["name"])) for field in vec["fields"]]
+        more, found = _job_spelled(spelled)
+        problems.extend(more if label == "lower" else ["field names %s: %s" % (label, problem) for problem in more])
+        signature = signature or found
+        if more:
+            break
+    return problems, signature
+
+
+def _job_spelled(vec):
     import cutplace
     from cutplace import sql
     problems = []
